@@ -164,6 +164,33 @@ def asift(pred, items):
     return (yes, no)
 
 
+def _args_cache_key(argspec, arg_names, kwargs_defaults):
+    """Returns the default cache key function of acached_per_instance and alru_cache.
+
+    arg_names are the names of the parameters that the cached function receives
+    through args and kwargs. If the function also takes *args, the positional
+    arguments beyond its named parameters are kept apart in the key: passing them
+    to get_args_tuple() would take them for the values of keyword-only parameters
+    (with f(a, *rest, k=0), f(1, 2) and f(1, k=2) would share a cache entry).
+
+    """
+    if argspec.varargs is None:
+        return lambda args, kwargs: get_args_tuple(
+            args, kwargs, arg_names, kwargs_defaults
+        )
+    num_positional = len(arg_names) - len(argspec.kwonlyargs)
+
+    def cache_key(args, kwargs):
+        return (
+            get_args_tuple(
+                args[:num_positional], kwargs, arg_names, kwargs_defaults
+            ),
+            tuple(args[num_positional:]),
+        )
+
+    return cache_key
+
+
 def acached_per_instance():
     """Async equivalent of qcore.caching.cached_per_instance().
 
@@ -180,9 +207,7 @@ def acached_per_instance():
         async_fun = fun.asynq
         kwargs_defaults = get_kwargs_defaults(argspec)
         cache = {}
-
-        def cache_key(args, kwargs):
-            return get_args_tuple(args, kwargs, arg_names, kwargs_defaults)
+        cache_key = _args_cache_key(argspec, arg_names, kwargs_defaults)
 
         def clear_cache(instance_key, ref):
             del cache[instance_key]
@@ -234,9 +259,7 @@ def alru_cache(maxsize=128, key_fn=None):
 
         cache_key = key_fn
         if cache_key is None:
-
-            def cache_key(args, kwargs):
-                return get_args_tuple(args, kwargs, arg_names, kwargs_defaults)
+            cache_key = _args_cache_key(argspec, arg_names, kwargs_defaults)
 
         @asynq()
         @functools.wraps(fn)
